@@ -680,6 +680,10 @@ type ExportBatch struct {
 
 // Export exports chunks in batches, calling the callback for each batch
 func (be *BatchExporter) Export(chunks []*Chunk, callback func(ExportBatch) error) error {
+	if be.batchSize <= 0 {
+		return fmt.Errorf("batch size must be positive, got %d", be.batchSize)
+	}
+
 	exporter := NewExporterWithConfig(be.config)
 
 	for i := 0; i < len(chunks); i += be.batchSize {
